@@ -80,6 +80,32 @@ func (s c11Scn) class() string {
 
 const c11Bucket = "cbk"
 
+// Variants of the backend the model knows (lean/Vgw/Model/Crash.lean, Cfg.atomicReplace / Cfg.tagsFirst).
+// Set to true together with applying docs/C11-fix-1.diff / docs/C11-fix-2.diff to /repo (and drop the
+// known findings they repair); the environment variables C11_FIX1 / C11_FIX2 override for trying a patched binary.
+const (
+	c11Fix1Applied = false
+	c11Fix2Applied = false
+)
+
+func c11Variant() string {
+	f1, f2 := c11Fix1Applied, c11Fix2Applied
+	if v := os.Getenv("C11_FIX1"); v != "" {
+		f1 = v == "1"
+	}
+	if v := os.Getenv("C11_FIX2"); v != "" {
+		f2 = v == "1"
+	}
+	out := ""
+	if f1 {
+		out += ",areplace=1"
+	}
+	if f2 {
+		out += ",tagsfirst=1"
+	}
+	return out
+}
+
 func md5hex(b []byte) string { h := md5.Sum(b); return hex.EncodeToString(h[:]) }
 
 func (w *c11World) putObject(addr, key string, o c11Obj, extra ...gw.Header) gw.Resp {
@@ -311,7 +337,7 @@ func (s c11Scn) cfgLine() string {
 	case "Suspended":
 		vs = "suspended"
 	}
-	return fmt.Sprintf("otmp=%s,sidecar=%s,verdir=%s,vstatus=%s,bucket=%s", b(!s.NoOTmp), b(s.Sidecar), b(s.Versioning != ""), vs, c11Bucket)
+	return fmt.Sprintf("otmp=%s,sidecar=%s,verdir=%s,vstatus=%s,bucket=%s", b(!s.NoOTmp), b(s.Sidecar), b(s.Versioning != ""), vs, c11Bucket) + c11Variant()
 }
 
 func (s c11Scn) reqLine() string {
